@@ -464,6 +464,14 @@ func (g *g) caseClause() string {
 			if j > 0 {
 				g.op("|")
 			}
+			if (j > 0 || lp) && g.chance("esac_pat", 8) {
+				// "esac" is an ordinary pattern behind "(" and behind "|"
+				g.s.add(&Tok{Kind: KWord, Depth: len(g.stack), Pieces: []Piece{{Text: "esac"}}})
+				pats = append(pats, skel.Word([]string{skel.Lit("esac")}))
+				g.f("reserved_as_word")
+				g.f("esac_as_pattern")
+				continue
+			}
 			pats = append(pats, g.word("case_pat", false))
 		}
 		g.op(")").LinebreakAfter = true
@@ -1061,14 +1069,24 @@ func (g *g) heredoc(n string) string {
 	op := g.pick("hd_op", "<<", "<<-")
 	t := g.op(op)
 	t.Glue = n != ""
-	delim := g.pick("hd_delim", "EOF", "E", "END", "é", "!", "E_1") + fmt.Sprint(g.hdn)
+	delim := g.pick("hd_delim", "EOF", "E", "END", "é", "!", "E_1", "-E", "-") + fmt.Sprint(g.hdn)
 	h := &HD{Op: op, DelimText: delim}
 	var wordTxt string
 	var wparts []string
-	switch g.ch.Intn(7, "hd_quote") {
+	switch g.ch.Intn(8, "hd_quote") {
 	default:
 		wordTxt = delim
 		wparts = []string{skel.Lit(delim)}
+	case 7:
+		// double quotes with an escaped character inside: the delimiter is the
+		// word after quote removal
+		c := g.pick("hd_esc", `"`, `\`, "$", "`")
+		wordTxt = `"` + delim + `\` + c + `x"`
+		wparts = []string{skel.Quote(`"`, []string{skel.Lit(delim), skel.Quote(`\`, []string{skel.Lit(c)}), skel.Lit("x")})}
+		delim = delim + c + "x"
+		h.DelimText = delim
+		h.Quoted = true
+		g.f("heredoc_delimiter_with_escape")
 	case 3:
 		wordTxt = "'" + delim + "'"
 		wparts = []string{skel.Quote("'", []string{skel.Lit(delim)})}
